@@ -87,6 +87,21 @@ func (g *ogen) print() onode {
 	case 8:
 		// the printed form of a value with a String / Error method is that method's text, whatever the
 		// kind of the value; it is data like any other and goes through the escaper once
+		if r.Chance(40) {
+			// kinds the model has no value for: arrays (sliced through a copy when not addressable),
+			// channels, nil funcs; every printed value goes through the escaper on its own
+			type gc struct{ src, out string }
+			cs := []gc{
+				{"{{ arr[0:2] }}", g.escape("[3 0]")}, {"{{ arr[1:] }}", g.escape("[0 7]")}, {"{{ arr[2] }}", g.E(7)}, {"{{ len(arr) }}", g.E(3)},
+				{"{{ len(arr[:0]) }}", g.E(0)}, {"{{range arr}}{{.}},{{end}}", g.E(3) + "," + g.E(0) + "," + g.E(7) + ","}, {"{{ parr[2] }}", g.E(7)},
+				{"{{ hold.Arr[0:1] }}", g.escape("[x<]")}, {"{{ hold.Arr[1] }}", g.escape("y")},
+				{"{{range i, v := arr[1:3]}}{{i}}{{v}}{{end}}", g.E(0) + g.E(0) + g.E(1) + g.E(7)},
+{"{{ isset(nf) }}", g.E("false")}, {"{{ isset(hold.F) }}", g.E("false")},
+				{"{{if nf}}DEAD{{else}}n{{end}}", "n"},
+			}
+			c := cs[r.Intn(len(cs))]
+			return onode{src: c.src, out: c.out, failOff: -1}
+		}
 		k := r.Pick([]string{"int", "bool", "float", "str", "u8", "struct", "pint", "err"})
 		var want string
 		switch k {
@@ -180,6 +195,10 @@ func (g *ogen) failing() onode {
 		"{{ ident(n) }}", "{{ sa | nope }}", "{{ upper(ia, ia) }}", "{{ repeat(sa, sa) }}", "{{ len() }}", "{{ map(\"k\") }}", "{{ ints(3, 1) }}", "{{ li[sa] }}", "{{ m.k.x.y }}", "{{ -sa }}",
 		"{{ ia % zero }}", "{{ ia % 0.5 }}", "{{ ia % -0.25 }}", "{{ ia / \"0\" }}", "{{ ia % \"0\" }}", "{{ ia % t }}", "{{ ia / t }}", "{{ 1.5 % 0.9 }}", "{{ ia / (zero * ib) }}", "{{ n.x }}", "{{ li[-1] }}", "{{ sa[5:2] }}",
 		"{{ m[n] }}", "{{ st[n] }}", "{{ li[n] }}", "{{ ms[n].Name }}", "{{ m[st.I] }}", "{{ li[1:4] }}", "{{ li[:5] }}", "{{ ls[0:4] }}", "{{ len(li[:4]) }}", "{{ li[4:] }}", "{{range li[2:4]}}x{{end}}", "{{ li[3] }}", "{{ ls[3] }}"})
+	if g.named && g.r.Chance(35) {
+		act = g.r.Pick([]string{"{{ arr[0:4] }}", "{{ arr[3] }}", "{{ arr[2:1] }}", "{{ parr[0:1] }}", "{{ nf(\"a\") }}", "{{ \"a\" | nf }}", "{{ hold.F(1) }}", "{{ njf(1) }}", "{{ 1 | njf }}",
+			"{{range sch}}x{{end}}", "{{range k, v := sch}}x{{end}}", "{{ ia[0:1] }}", "{{ m[0:1] }}", "{{ st[0:1] }}", "{{ n[0:1] }}", "{{ t[:] }}"})
+	}
 	return onode{src: act, out: "", failOff: 0}
 }
 
@@ -548,6 +567,11 @@ func genOracleProgram(r *h.Rand, flavor string) (*prog, *sx.Sexp) {
 	vars.Add(bind("nv_int", named("int", vInt(3)))).Add(bind("nv_pint", named("pint", vInt(3)))).Add(bind("nv_bool", named("bool", vBool(true)))).
 		Add(bind("nv_float", named("float", vFloat(1.5)))).Add(bind("nv_str", named("str", vStr("s'")))).Add(bind("nv_u8", named("u8", vInt(7)))).
 		Add(bind("nv_struct", named("struct", vInt(4)))).Add(bind("nv_err", named("err", vStr("e<\"&"))))
+	gov := func(k string) *sx.Sexp { return sx.L(sx.A("goval"), sx.A(k)) }
+	if g.named {
+		vars.Add(bind("arr", gov("arr3"))).Add(bind("parr", gov("parr3"))).Add(bind("nf", gov("nilfunc"))).Add(bind("njf", gov("niljfunc"))).
+			Add(bind("sch", gov("sendch"))).Add(bind("rch", gov("recvch"))).Add(bind("hold", gov("holder")))
+	}
 	vars.Add(bind("trimSpace", vFunc("shout")))
 	p.globals.Add(bind("html", vFunc("shout")))
 	p.vars = vars
